@@ -673,6 +673,22 @@ def _loader(repo, rep):
               pf.qualname, "load: uses a loader bound to the same template "
               "class and configuration", construct="bound-loader",
               where=L.where(pf))
+    # "the same configuration": whatever the constructor takes out of
+    # **config by naming it no longer reaches the loader, so the templates
+    # that load: / use-macro pull in do not inherit it.  The named ones are
+    # the file's own (reviewed): a template option named here is lost
+    own_params = {"self", "filename", "loader_class", "package_name",
+                  "search_path"}
+    a_ = pf.node.args
+    named = {x.arg for x in a_.posonlyargs + a_.args + a_.kwonlyargs}
+    rep.check(named <= own_params and a_.kwarg is not None and
+              a_.kwarg.arg == "config", "R16.3", pf.qualname,
+              "the constructor names only the file's own arguments; every "
+              "template option stays in **config, which the bound loader "
+              "receives (auto_reload, strict, ... are inherited by loaded "
+              "templates)", construct="config-undivided", where=L.where(pf),
+              detail="named besides the file's own: %s" % sorted(
+                  named - own_params))
     et = repo.cls(ZT + "PageTemplateFile").attrs.get("expression_types")
     bi = repo.func(ZT + "PageTemplateFile._builtins")
     t = L.text(bi.node, body_only=True)
